@@ -4,8 +4,10 @@ package corebgp
 
 import (
 	"errors"
+	"io"
 	"net"
 	"net/netip"
+	"sync"
 	"time"
 )
 
@@ -182,4 +184,75 @@ func VerifAdmit(s *Server, conn net.Conn) (netip.Addr, bool) {
 	case <-time.After(50 * time.Millisecond):
 		return netip.Addr{}, false
 	}
+}
+
+// verifChunkConn delivers exactly the configured chunks, one per Read call (split when the
+// caller's buffer is smaller), then either EOF or blocks until closed.
+type verifChunkConn struct {
+	net.Conn
+	chunks [][]byte
+	eof    bool
+	idle   chan struct{}
+	closed chan struct{}
+	once   sync.Once
+	ionce  sync.Once
+}
+
+func (c *verifChunkConn) Read(p []byte) (int, error) {
+	for len(c.chunks) > 0 && len(c.chunks[0]) == 0 {
+		c.chunks = c.chunks[1:]
+	}
+	if len(c.chunks) == 0 {
+		if c.eof {
+			return 0, io.EOF
+		}
+		c.ionce.Do(func() { close(c.idle) })
+		<-c.closed
+		return 0, net.ErrClosed
+	}
+	n := copy(p, c.chunks[0])
+	c.chunks[0] = c.chunks[0][n:]
+	return n, nil
+}
+
+func (c *verifChunkConn) Close() error {
+	c.once.Do(func() { close(c.closed) })
+	return nil
+}
+
+// VerifReaderEvent is a message or the error that ended the reader.
+type VerifReaderEvent struct {
+	Msg *VerifMessage
+	Err error
+}
+
+// VerifRunReader runs the real reader goroutine (fsm.read) over a connection that delivers
+// exactly the given chunks and returns what it hands to the FSM, in order.
+func VerifRunReader(chunks [][]byte, eof bool) []VerifReaderEvent {
+	conn := &verifChunkConn{chunks: chunks, eof: eof, idle: make(chan struct{}), closed: make(chan struct{})}
+	f := &fsm{conn: conn}
+	f.startReading()
+	var out []VerifReaderEvent
+loop:
+	for {
+		select {
+		case m := <-f.readerMsgCh:
+			out = append(out, VerifReaderEvent{Msg: verifMessageOf(m)})
+		case err := <-f.readerErrCh:
+			out = append(out, VerifReaderEvent{Err: err})
+			break loop
+		case <-conn.idle:
+			// the reader is blocked in Read with nothing left: everything before was delivered,
+			// except a message it may be handing over right now
+			select {
+			case m := <-f.readerMsgCh:
+				out = append(out, VerifReaderEvent{Msg: verifMessageOf(m)})
+				continue
+			default:
+			}
+			break loop
+		}
+	}
+	f.cleanupConnAndReader()
+	return out
 }
